@@ -1,41 +1,16 @@
 /-
-C01/C02 — line-protocol step function of the B+ tree model (keys and values are `Nat`).
-Operation list and answer format: see harness/c01.hpp.  Used by Driver/C01.lean and Driver/C02.lean.
+C01/C02 — line-protocol front end of the B+ tree machine (Model/C01Machine.lean): parse an operation line
+into an `Op`, execute `stepOp`, render the answer.  Operation list and answer format: see harness/c01.hpp.
+Used by Driver/C01.lean and Driver/C02.lean.
 -/
 import TlxVerif.Model.Drv
-import TlxVerif.Model.C01Tree
-import TlxVerif.Model.C01Erase
+import TlxVerif.Model.C01Machine
 namespace TlxVerif.C01
 
-abbrev T := Tree Nat Nat
-abbrev Ent := Nat × Nat
-
-/-- run-time selectable key order of the harness (`lessv`) -/
-def orderLt (mode : Nat) (a b : Nat) : Bool :=
-  match mode with
-  | 0 => a < b
-  | 1 => a > b
-  | _ => a / 2 < b / 2
-
-structure Cfg where
-  kind : Nat               -- 0 set, 1 multiset, 2 map, 3 multimap
-  p : Params Nat           -- `lt` is filled in per register (the comparator object travels with the container)
-
-def Cfg.isMap (c : Cfg) : Bool := c.kind ≥ 2
-
+/-- driver state: the configuration line and the machine state -/
 structure St where
   cfg : Option Cfg := none
-  t0 : T := {}
-  t1 : T := {}
-  m0 : Nat := 0            -- key order (`key_less_`) currently held by register 0
-  m1 : Nat := 0
-
-def St.get (s : St) (r : Nat) : T := if r = 0 then s.t0 else s.t1
-def St.set (s : St) (r : Nat) (t : T) : St := if r = 0 then { s with t0 := t } else { s with t1 := t }
-def St.mode (s : St) (r : Nat) : Nat := if r = 0 then s.m0 else s.m1
-def St.setMode (s : St) (r : Nat) (m : Nat) : St := if r = 0 then { s with m0 := m } else { s with m1 := m }
-/-- template parameters + the comparator of register `r` -/
-def St.params (s : St) (c : Cfg) (r : Nat) : Params Nat := { c.p with lt := orderLt (s.mode r) }
+  m : MSt := {}
 
 /-! ### printing -/
 
@@ -59,8 +34,11 @@ def showPos (t : T) : Pos → String
 
 def showLedger (l : Ledger) : String := s!"a={l.leafAlloc},{l.leafFree},{l.innerAlloc},{l.innerFree}"
 
-def mutAnswer (c : Cfg) (s : St) (ret : String) (l : Ledger) : St × String :=
-  (s, s!"{ret} ; {showLedger l} ; T0 {showTree c.isMap s.t0} ; T1 {showTree c.isMap s.t1}")
+def showOptEnt (isMap : Bool) : Option Ent → String
+  | some e => showEnt isMap e
+  | none => "!"
+
+def bit (b : Bool) : String := if b then "1" else "0"
 
 /-! ### parsing (mirrors `num` / `parse_ent` / `reg` of the harness) -/
 
@@ -82,257 +60,86 @@ def parseEnt (isMap : Bool) (s : String) : Option Ent :=
     | _, _ => none
   | _ => none
 
-/-! ### helper loops of the harness -/
-
-def iterate {α : Type} (f : α → α) : Nat → α → α
-  | 0, a => a
-  | n + 1, a => iterate f n (f a)
-
-/-- `walk_fwd`: `while (b != e) { if (out.size() > cap) break; out.push_back(*b); ++b; }` -/
-def walkFwd (inc : Nat × Nat → Nat × Nat) (der : Nat × Nat → Option Ent) (e : Nat × Nat) (cap : Nat) :
-    Nat → Nat × Nat → List (Option Ent) → List (Option Ent)
-  | 0, _, out => out.reverse
-  | fuel + 1, b, out =>
-    if b = e then out.reverse
-    else if out.length > cap then out.reverse
-    else walkFwd inc der e cap fuel (inc b) (der b :: out)
-
-/-- `walk_bwd`: `while (e != b) { if (out.size() > cap) break; --e; out.push_back(*e); }` -/
-def walkBwd (dec : Nat × Nat → Nat × Nat) (der : Nat × Nat → Option Ent) (b : Nat × Nat) (cap : Nat) :
-    Nat → Nat × Nat → List (Option Ent) → List (Option Ent)
-  | 0, _, out => out.reverse
-  | fuel + 1, e, out =>
-    if e = b then out.reverse
-    else if out.length > cap then out.reverse
-    else
-      let e' := dec e
-      walkBwd dec der b cap fuel e' (der e' :: out)
-
-def showOptEnt (isMap : Bool) : Option Ent → String
-  | some e => showEnt isMap e
-  | none => "!"
-
-/-- steps of `inc` until `tgt` is reached, at most `lim + 1` -/
-def stepsTo (inc : Nat × Nat → Nat × Nat) (tgt : Nat × Nat) (lim : Nat) : Nat → Nat × Nat → Nat → Nat
-  | 0, _, n => n
-  | fuel + 1, x, n => if x ≠ tgt ∧ n ≤ lim then stepsTo inc tgt lim fuel (inc x) (n + 1) else n
-
-def lexLt : List Ent → List Ent → Bool
-  | _, [] => false
-  | [], _ :: _ => true
-  | a :: as, b :: bs =>
-    if a.1 < b.1 ∨ (a.1 = b.1 ∧ a.2 < b.2) then true
-    else if b.1 < a.1 ∨ (b.1 = a.1 ∧ b.2 < a.2) then false
-    else lexLt as bs
-
-def bit (b : Bool) : String := if b then "1" else "0"
-
-/-- fold of `insert` over a range (`insert(first,last)`, range constructor) -/
-def insertMany (p : Params Nat) : List Ent → T → Ledger → Option (T × Ledger)
-  | [], t, l => some (t, l)
-  | e :: es, t, l =>
-    match insert p t e.1 e.2 with
-    | none => none
-    | some r => insertMany p es r.tree (l.add r.ledger)
-
-def sortedFor (p : Params Nat) : List Ent → Bool
-  | a :: b :: rest =>
-    (if p.dup then !p.lt b.1 a.1 else p.lt a.1 b.1) && sortedFor p (b :: rest)
-  | _ => true
-
-/-! ### the step function -/
-
-/-- operations with a fixed number of arguments -/
-def stepFixed (c : Cfg) (s : St) (ts : List String) : Option (St × String) :=
-  let isMap := c.isMap
-  let fail : Option (St × String) := some (s, "MODEL-UB")
-  match ts with
-  | [op, r, a, b] =>
-    match reg r, num a, num b with
-    | some r, some k, some v =>
-      let p := s.params c r
-      if op = "ins" ∨ op = "insh" ∨ op = "ins2" then
-        if op = "ins2" ∧ !isMap then none else
-        let v := if isMap then v else 0
-        match insert p (s.get r) k v with
-        | none => fail
-        | some res =>
-          let s' := s.set r res.tree
-          some (mutAnswer c s' s!"ins {bit res.inserted} {showPos res.tree (some res.pos)}" res.ledger)
-      else none
-    | _, _, _ => none
-  | [op, r, a] =>
-    match reg r with
-    | none => none
-    | some r =>
-      let p := s.params c r
-      let t := s.get r
-      let ch := t.leafChain
-      if op = "copy" ∨ op = "assign" ∨ op = "swap" ∨ op = "tswap" ∨ op = "cmp" then
-        match reg a with
-        | none => none
-        | some q =>
-          let o := s.get q
-          if op = "copy" then
-            if q = r then none else
-            let (_, l1) := clear t                    -- destructor of the old object
-            let (t', l2) := copyCtor o
-            some (mutAnswer c ((s.set r t').setMode r (s.mode q)) "copy" (l1.add l2))
-          else if op = "assign" then
-            if q = r then some (mutAnswer c s "assign" {}) else
-            let (t', l) := assign t o
-            some (mutAnswer c ((s.set r t').setMode r (s.mode q)) "assign" l)
-          else if op = "swap" then
-            -- std::swap(tree_, from.tree_): tmp(a); a = b; b = tmp; ~tmp
-            let (tmp, l1) := copyCtor t
-            if q = r then
-              let (a', l2) := assign t tmp            -- `a = a` is skipped by the self-assignment guard
-              let (_, l3) := clear tmp
-              some (mutAnswer c (s.set r a') "swap" ((l1.add l2).add l3))
-            else
-              let (a', l2) := assign t o
-              let (b', l3) := assign o tmp
-              let (_, l4) := clear tmp
-              some (mutAnswer c ((((s.set r a').set q b').setMode r (s.mode q)).setMode q (s.mode r)) "swap"
-                (((l1.add l2).add l3).add l4))
-          else if op = "tswap" then
-            some (mutAnswer c ((((s.set r o).set q t).setMode r (s.mode q)).setMode q (s.mode r)) "tswap" {})
-          else
-            let x := t.toList
-            let y := o.toList
-            let eq := t.stats.size == o.stats.size && x == y
-            let lt := lexLt x y
-            let gt := lexLt y x
-            some (s, "cmp " ++ bit eq ++ bit (!eq) ++ bit lt ++ bit gt ++ bit (!gt) ++ bit (!lt))
-      else
-      match num a with
-      | none => none
-      | some k =>
-        if op = "idx" then
-          if c.kind ≠ 2 then none else
-          match insert p t k 0 with
-          | none => fail
-          | some res =>
-            match deref res.tree.leafChain res.pos with
-            | none => fail
-            | some e => some (mutAnswer c (s.set r res.tree) s!"idx {e.2}" res.ledger)
-        else if op = "er1" then
-          match eraseOne p t k with
-          | none => fail
-          | some res => some (mutAnswer c (s.set r res.tree) s!"er1 {bit res.erased}" res.ledger)
-        else if op = "era" then
-          match eraseAll p k (t.stats.size + 2) t 0 {} with
-          | none => fail
-          | some (t', n, l) => some (mutAnswer c (s.set r t') s!"era {n}" l)
-        else if op = "eri" then
-          if k ≥ t.stats.size then none else
-          match beginPos ch with
-          | none => fail
-          | some b =>
-            let it := iterate (itInc ch) k b
-            match deref ch it, eraseIter p t it.1 it.2 with
-            | some e, some res =>
-              some (mutAnswer c (s.set r res.tree) s!"eri {showPos t (some it)} {showEnt isMap e}" res.ledger)
-            | _, _ => fail
-        else if op = "find" then
-          match find p t k with
-          | none => fail
-          | some pos => some (s, s!"find {showPos t pos}")
-        else if op = "lb" then
-          match lowerBound p t k with
-          | none => fail
-          | some pos => some (s, s!"lb {showPos t pos}")
-        else if op = "ub" then
-          match upperBound p t k with
-          | none => fail
-          | some pos => some (s, s!"ub {showPos t pos}")
-        else if op = "eqr" then
-          match lowerBound p t k, upperBound p t k with
-          | some a, some b => some (s, s!"eqr {showPos t a} {showPos t b}")
-          | _, _ => fail
-        else if op = "exists" then
-          match existsKey p t k with
-          | none => fail
-          | some b => some (s, s!"exists {bit b}")
-        else if op = "count" then
-          match count p t k with
-          | none => fail
-          | some n => some (s, s!"count {n}")
-        else if op = "iter" then
-          if k > 15 then none else
-          let cap := t.stats.size + 2
-          let fuel := cap + 3
-          let out : List (Option Ent) :=
-            match beginPos ch, endPos ch with
-            | some b, some e =>
-              let rb := toReverse ch e               -- rbegin() = reverse_iterator(end())
-              let re := toReverse ch b               -- rend()   = reverse_iterator(begin())
-              match k % 8 with
-              | 0 | 2 => walkFwd (itInc ch) (deref ch) e cap fuel b []
-              | 1 | 3 => walkBwd (itDec ch) (deref ch) b cap fuel e []
-              | 4 | 6 => walkFwd (ritInc ch) (rderef ch) re cap fuel rb []
-              | _ => walkBwd (ritDec ch) (rderef ch) rb cap fuel re []
-            | _, _ => []
-          some (s, String.join ("iter" :: out.map (fun e => " " ++ showOptEnt isMap e)))
-        else if op = "rconv" ∨ op = "fconv" then
-          if k > t.stats.size then none else
-          match beginPos ch, endPos ch with
-          | some b, some e =>
-            let rb := toReverse ch e
-            let re := toReverse ch b
-            if op = "rconv" then
-              if k = 0 then some (s, "rconv rend") else
-              let it := iterate (itInc ch) k b
-              let rit := toReverse ch it
-              let steps := stepsTo (ritInc ch) re (t.stats.size + 1) (t.stats.size + 3) rit 0
-              some (s, s!"rconv {showOptEnt isMap (rderef ch rit)} {steps}")
-            else
-              if k = 0 then some (s, "fconv end") else
-              let rit := iterate (ritInc ch) k rb
-              let it := toForward ch rit
-              let steps := stepsTo (itInc ch) e (t.stats.size + 1) (t.stats.size + 3) it 0
-              some (s, s!"fconv {showOptEnt isMap (deref ch it)} {steps}")
-          | _, _ => if k = 0 then some (s, if op = "rconv" then "rconv rend" else "fconv end") else fail
-        else none
-  | [op, r] =>
-    match reg r with
-    | none => none
-    | some r =>
-      let t := s.get r
-      if op = "size" then some (s, s!"size {t.stats.size} {bit (t.stats.size == 0)}")
-      else if op = "clear" then
-        let (t', l) := clear t
-        some (mutAnswer c (s.set r t') "clear" l)
-      else none
-  | _ => none
-
-def stepOp (c : Cfg) (s : St) (ts : List String) : Option (St × String) :=
-  let isMap := c.isMap
-  let fail : Option (St × String) := some (s, "MODEL-UB")
+/-- an operation line as an `Op`; `none` = not an operation of the protocol (`bad-op`) -/
+def parseOp (isMap : Bool) (ts : List String) : Option Op :=
   match ts with
   | op :: r :: rest =>
-    if op = "bulk" ∨ op = "insr" ∨ op = "rctor" then
-      match reg r, rest.mapM (parseEnt isMap) with
-      | some r, some es =>
-        let p := s.params c r
-        let t := s.get r
-        if op = "bulk" then
-          if t.stats.size ≠ 0 ∨ !sortedFor p es then none else
-          match bulkLoad p es with
-          | none => fail
-          | some (t', l) => some (mutAnswer c (s.set r t') "bulk" l)
-        else if op = "insr" then
-          match insertMany p es t {} with
-          | none => fail
-          | some (t', l) => some (mutAnswer c (s.set r t') "insr" l)
-        else
-          let (_, l0) := clear t
-          match insertMany p es {} l0 with
-          | none => fail
-          | some (t', l) => some (mutAnswer c (s.set r t') "rctor" l)
-      | _, _ => none
-    else stepFixed c s (op :: r :: rest)
+    match reg r with
+    | none => none
+    | some r =>
+      if op = "bulk" ∨ op = "insr" ∨ op = "rctor" then
+        match rest.mapM (parseEnt isMap) with
+        | none => none
+        | some es => some (if op = "bulk" then .bulk r es else if op = "insr" then .insr r es else .rctor r es)
+      else
+        match rest with
+        | [a, b] =>
+          match num a, num b with
+          | some k, some v =>
+            if op = "ins" then some (.ins .plain r k v)
+            else if op = "insh" then some (.ins .hint r k v)
+            else if op = "ins2" then some (.ins .two r k v)
+            else none
+          | _, _ => none
+        | [a] =>
+          if op = "copy" ∨ op = "assign" ∨ op = "swap" ∨ op = "tswap" ∨ op = "cmp" then
+            match reg a with
+            | none => none
+            | some q =>
+              some (if op = "copy" then .copy r q else if op = "assign" then .assign r q
+                    else if op = "swap" then .swap r q else if op = "tswap" then .tswap r q else .cmp r q)
+          else
+            match num a with
+            | none => none
+            | some k =>
+              if op = "idx" then some (.idx r k)
+              else if op = "er1" then some (.er1 r k)
+              else if op = "era" then some (.era r k)
+              else if op = "eri" then some (.eri r k)
+              else if op = "find" then some (.find r k)
+              else if op = "lb" then some (.lb r k)
+              else if op = "ub" then some (.ub r k)
+              else if op = "eqr" then some (.eqr r k)
+              else if op = "exists" then some (.exists_ r k)
+              else if op = "count" then some (.count r k)
+              else if op = "iter" then some (.iter r k)
+              else if op = "rconv" then some (.rconv r k)
+              else if op = "fconv" then some (.fconv r k)
+              else none
+        | [] =>
+          if op = "size" then some (.size r)
+          else if op = "clear" then some (.clear r)
+          else none
+        | _ => none
   | _ => none
+
+/-- does the harness print the ledger and both tree dumps after this operation -/
+def Op.mutating : Op → Bool
+  | .ins .. | .idx .. | .insr .. | .rctor .. | .er1 .. | .era .. | .eri .. | .clear .. | .bulk .. | .copy ..
+  | .assign .. | .swap .. | .tswap .. => true
+  | _ => false
+
+/-- the `<ret>` part of the answer -/
+def showOut (isMap : Bool) (op : Op) (before after : T) : MOut → String
+  | .ins b pos => s!"ins {bit b} {showPos after (some pos)}"
+  | .idx v => s!"idx {v}"
+  | .unit =>
+    match op with
+    | .insr .. => "insr" | .rctor .. => "rctor" | .clear .. => "clear" | .bulk .. => "bulk" | .copy .. => "copy"
+    | .assign .. => "assign" | .swap .. => "swap" | .tswap .. => "tswap" | _ => "ok"
+  | .er1 b => s!"er1 {bit b}"
+  | .era n => s!"era {n}"
+  | .eri pos e => s!"eri {showPos before (some pos)} {showEnt isMap e}"
+  | .pos p =>
+    (match op with | .find .. => "find " | .lb .. => "lb " | _ => "ub ") ++ showPos before p
+  | .pos2 a b => s!"eqr {showPos before a} {showPos before b}"
+  | .bool b => s!"exists {bit b}"
+  | .num n => s!"count {n}"
+  | .size n e => s!"size {n} {bit e}"
+  | .entries l => String.join ("iter" :: l.map (fun e => " " ++ showOptEnt isMap e))
+  | .convEnd => (match op with | .rconv .. => "rconv rend" | _ => "fconv end")
+  | .conv e n => (match op with | .rconv .. => "rconv " | _ => "fconv ") ++ s!"{showOptEnt isMap e} {n}"
+  | .cmp eq lt gt => "cmp " ++ bit eq ++ bit (!eq) ++ bit lt ++ bit gt ++ bit (!gt) ++ bit (!lt)
 
 /-- the slot pairs instantiated by the harness -/
 def slotPairs : List (Nat × Nat) :=
@@ -363,14 +170,23 @@ def step (s : St) (ts : List String) : St × String :=
     | some _ => (s, "bad-op")
     | none =>
       match parseCfg rest with
-      | some (c, m0, m1) => ({ cfg := some c, m0 := m0, m1 := m1 }, "cfg")
+      | some (c, m0, m1) => ({ cfg := some c, m := { m0 := m0, m1 := m1 } }, "cfg")
       | none => (s, "bad-op")
   | _ =>
     match s.cfg with
     | none => (s, "bad-op")
     | some c =>
-      match stepOp c s ts with
-      | some r => r
+      match parseOp c.isMap ts with
       | none => (s, "bad-op")
+      | some op =>
+        match stepOp c s.m op with
+        | .bad => (s, "bad-op")
+        | .ub => (s, "MODEL-UB")
+        | .ok (m', mo, lg) =>
+          let ret := showOut c.isMap op (s.m.get op.reg) (m'.get op.reg) mo
+          if op.mutating then
+            ({ s with m := m' },
+             s!"{ret} ; {showLedger lg} ; T0 {showTree c.isMap m'.t0} ; T1 {showTree c.isMap m'.t1}")
+          else ({ s with m := m' }, ret)
 
 end TlxVerif.C01
